@@ -18,8 +18,14 @@ FINDING_PUA = "pua-char-in-document"   # key in /verif/known_findings.json
 # trees as plain data: [tag, [[k, v]...], text|None, tail(str), [kids]]
 
 
+# Comments and processing instructions are encoded as childless nodes with reserved tag names
+# ("#comment", "#pi:<target>", text = content); the code treats them like any non-formatting child.
 def build(t):
     from lxml import etree
+    if t[0] == "#comment":
+        return etree.Comment(t[2] or "")
+    if t[0].startswith("#pi:"):
+        return etree.ProcessingInstruction(t[0][4:], t[2] or "")
     e = etree.Element(t[0])
     for k, v in t[1]:
         e.attrib[k] = v
@@ -41,6 +47,11 @@ def build_root(t):
 
 
 def canon(e):
+    from lxml import etree
+    if e.tag is etree.Comment:
+        return ["#comment", [], e.text, e.tail or "", []]
+    if e.tag is etree.PI:
+        return ["#pi:" + e.target, [], e.text, e.tail or "", []]
     return [e.tag, [[k, v] for k, v in e.attrib.items()], e.text, e.tail or "", [canon(c) for c in e]]
 
 
@@ -221,10 +232,22 @@ TEXTS = [None, None, "", "a", "b", "ab", " ", "x y", "\n", "1"]
 ATTRS = [[], [], [], [["k", "1"]], [["k", "2"]], [["k", "1"], ["j", "2"]], [["j", "2"], ["k", "1"]], [["id", ""]]]
 
 
-def gen_tree(rng, depth, tags=TAGS, width=3, texts=TEXTS, root=False):
+CPI_TEXTS = ["", "c", "soft", "a b", "x"]
+
+
+def gen_cpi(rng, texts=TEXTS):
+    """a comment or a processing instruction, with a tail"""
+    tag = "#comment" if rng.random() < 0.5 else "#pi:" + rng.choice(["pagebreak", "q"])
+    return [tag, [], rng.choice(CPI_TEXTS), rng.choice(texts) or "", []]
+
+
+def gen_tree(rng, depth, tags=TAGS, width=3, texts=TEXTS, root=False, cpi=0.0):
     tag = rng.choice(tags)
     n = 0 if depth <= 0 else rng.choice([0, 0, 1, 1, 2, 2, 3][:width + 3])
-    kids = [gen_tree(rng, depth - 1, tags, width, texts) for _ in range(n)]
+    kids = [gen_cpi(rng, texts) if rng.random() < cpi else gen_tree(rng, depth - 1, tags, width, texts, cpi=cpi)
+            for _ in range(n)]
+    if cpi and depth > 0 and rng.random() < cpi:
+        kids.insert(rng.randint(0, len(kids)), gen_cpi(rng, texts))
     return [tag, deepcopy(rng.choice(ATTRS)), rng.choice(texts), "" if root else (rng.choice(texts) or ""), kids]
 
 
@@ -261,6 +284,8 @@ def mutate(rng, t):
     """a document sharing most subtrees with t"""
     t = deepcopy(t)
     def walk(x):
+        if x[0].startswith("#"):
+            return
         r = rng.random()
         if r < 0.1:
             x[2] = rng.choice(TEXTS)
@@ -321,13 +346,13 @@ def gen_scenarios(run, rng):
     nA, nB, nC, nD, nS = (500, 300, 300, 300, 200) if quick else (4000, 2500, 2500, 2500, 1500)
     # (A) one document, fresh maker
     for _ in range(nA):
-        t = gen_tree(rng, rng.randint(1, 4), root=True)
+        t = gen_tree(rng, rng.randint(1, 4), root=True, cpi=rng.choice([0.0, 0.0, 0.25]))
         tt, fmt = tagsets_for(rng, t)
         scs.append({"kind": "single", "tt": tt, "fmt": fmt, "oracle": "roundtrip",
                     "steps": [["do", t], ["table"], ["undo", 0], ["table"]]})
     # (B) several documents through one maker, undone in random order
     for _ in range(nB):
-        t1 = gen_tree(rng, rng.randint(1, 4), root=True)
+        t1 = gen_tree(rng, rng.randint(1, 4), root=True, cpi=rng.choice([0.0, 0.0, 0.25]))
         tt, fmt = tagsets_for(rng, t1)
         ds = [t1, mutate(rng, t1)] + ([gen_tree(rng, 3, root=True)] if rng.random() < 0.5 else [])
         rng.shuffle(ds)
@@ -354,6 +379,29 @@ def gen_scenarios(run, rng):
         steps.append(["do", d2]); same.append((nd, i2))
         steps.append(["table"])
         scs.append({"kind": "same", "tt": tt, "fmt": fmt, "oracle": "same", "same": same, "steps": steps})
+    # (M) comments and processing instructions inside text tags and inside formatting elements, followed by
+    # text and inline elements (their position relative to later siblings must survive); mark_diff on such
+    # a placeholder is outside the model, so they stay out of the history stream
+    seed_doc = ["para", [], "Intro ", "", [["#pi:pagebreak", [], "soft", "then ", []],
+                                            ["b", [], "bold", " tail.", []]]]
+    scs.append({"kind": "cpi", "tt": ["para"], "fmt": ["b"], "oracle": "roundtrip",
+                "steps": [["do", seed_doc], ["table"], ["undo", 0]]})
+    for _ in range(nS):
+        def inline(depth):
+            r = rng.random()
+            if r < 0.35:
+                return gen_cpi(rng)
+            if r < 0.7 and depth > 0:
+                return [rng.choice(["b", "i"]), deepcopy(rng.choice(ATTRS)), rng.choice(TEXTS), rng.choice(TEXTS) or "",
+                        [inline(depth - 1) for _ in range(rng.randint(0, 3))]]
+            return [rng.choice(["img", "span", "b"]), deepcopy(rng.choice(ATTRS)), rng.choice(TEXTS), rng.choice(TEXTS) or "",
+                    [gen_cpi(rng)] if rng.random() < 0.3 else []]
+        para = ["p", [], rng.choice(TEXTS), "", [inline(2) for _ in range(rng.randint(1, 4))]]
+        doc = para if rng.random() < 0.5 else ["r", [], None, "", [gen_cpi(rng), para, gen_tree(rng, 1, cpi=0.3)]]
+        fmt = [t for t in ["b", "i", "span"] if rng.random() < 0.6]
+        steps = [["do", doc]] + ([["do", mutate(rng, doc)]] if rng.random() < 0.3 else []) + [["table"]]
+        steps += [["undo", i] for i in range(len(steps) - 1)]
+        scs.append({"kind": "cpi", "tt": ["p"], "fmt": fmt, "oracle": "roundtrip", "steps": steps})
     # (T) detached text tags: a stored (T_SINGLE) subtree containing text tags with children, met again (hit)
     for _ in range(nS):
         inner_tag = rng.choice(["p", "div"])
@@ -651,8 +699,8 @@ def main(run):
         "steps_compared": nsteps,
         "distinct_nontrivial": len(nontriv),
         "rule": "every labelled ordered tree with <= %d nodes over tags {p,b,x} x %d tag/text variants [%d, exhaustive]; plus seeded "
-                "mixed-content documents (tags %s, attributes in both orders, None/''/whitespace texts and tails, depth <= 4) with random "
-                "text_tags/formatting_tags subsets on fresh makers, makers that processed other (related) documents, histories of raw "
+                "mixed-content documents (tags %s, attributes in both orders, None/''/whitespace texts and tails, depth <= 4; comments and processing instructions with tails "
+                "inside text tags and formatting elements) with random text_tags/formatting_tags subsets on fresh makers, makers that processed other (related) documents, histories of raw "
                 "get_placeholder/mark_diff/wrap_diff/do_tree calls with formatter-like substitution, and adversarial undo inputs "
                 "(unbalanced placeholders, PUA characters in texts and tails); compared exactly: tree after do_tree, placeholder2tag "
                 "(element, role, close) in insertion order, tag2placeholder (role, close, placeholder), counter, tree or exception "
@@ -665,7 +713,8 @@ def main(run):
     })
     run.assumptions = [
         "etree.tounicode is injective on subtrees as modelled by XV.Placeholder.knorm (attribute order as stored; '' text before children = no text)",
-        "documents use no namespaces (in particular not the diff namespace), no comments/PIs inside text tags; chr() range (U+10FFFF) not reached",
+        "documents use no namespaces (in particular not the diff namespace); chr() range (U+10FFFF) not reached",
+        "comments / processing instructions are childless nodes with reserved tag names (#comment, #pi:<target>, text = content), never listed in text_tags / formatting_tags; mark_diff on their placeholders is not modelled",
         "table elements are compared by the value they have when do_tree returns (live objects are mutated during do_tree; nothing reads them meanwhile)",
         "Python's recursion limit is modelled by fuel: undo_tree runs with at least UNDO_DEPTH = 400 levels; C11_roundtrip carries the guard xheight T < UNDO_DEPTH, C11_roundtrip_any_fuel covers every depth",
         "documents contain no private-use characters of the placeholder range (no_pua); without it the round trip is false of the code (C11_roundtrip_any_document_refuted, replayed each run)",
